@@ -1,7 +1,7 @@
 (** Dispatch2.v — entry points of the models added after Dispatch.v (DER/token keys, hashes, key blinding, ...).
     [dispatch2] is what the OCaml runner calls; unknown names fall through to [dispatch]. *)
 From Coq Require Import Strings.String.
-From PatVerif Require Import Base.GoSem Model.Dispatch Model.TokenKey Model.Codecs Model.Derive Model.Ed25519 Model.TokenVerify Model.Ecdsa Model.BatchIssuer.
+From PatVerif Require Import Base.GoSem Model.Dispatch Model.TokenKey Model.Codecs Model.Derive Model.Ed25519 Model.TokenVerify Model.Ecdsa Model.BatchIssuer Base.Mem.
 Open Scope N_scope.
 
 Definition out_z (z : Z) : list (list byte) :=
@@ -121,10 +121,27 @@ Definition dispatch_batch (name : list byte) (a : list (list byte)) : option (li
           ++ [nat8 (length out)])
   else None.
 
+(** memory model: one backing array [buf]; the argument is buf[off : off+len : off+cap].
+    mem_append: buf off len cap xs -> in-place flag, the backing array afterwards, the resulting slice's bytes.
+    mem_build: which(0 = on the argument, 1 = fresh) abuf off len cap bbytes -> a's backing array afterwards, result bytes *)
+Definition dispatch_mem (name : list byte) (a : list (list byte)) : option (list (list byte)) :=
+  if is name "mem_append" then
+    let s := {| rg := 0; off := N.to_nat (narg a 1); len := N.to_nat (narg a 2); cap := N.to_nat (narg a 3) |} in
+    let '(h', s') := go_append [arg a 0] s (arg a 4) in
+    Some [if Nat.eqb (rg s') 0 then st_ok else st_none; region h' 0; view h' s']
+  else if is name "mem_build" then
+    let sa := {| rg := 0; off := N.to_nat (narg a 2); len := N.to_nat (narg a 3); cap := N.to_nat (narg a 4) |} in
+    let sb := {| rg := 1; off := 0; len := length (arg a 5); cap := length (arg a 5) |} in
+    let h := [arg a 1; arg a 5] in
+    let '(h', t) := if narg a 0 =? 0 then build_on_arg h sa sb else build_fresh h sa sb in
+    Some [region h' 0; view h' t]
+  else None.
+
 Definition dispatch2 (name : list byte) (a : list (list byte)) : list (list byte) :=
   match dispatch_tokenkey name a with Some r => r | None =>
   match dispatch_derive name a with Some r => r | None =>
   match dispatch_ed name a with Some r => r | None =>
   match dispatch_verify name a with Some r => r | None =>
   match dispatch_ecdsa name a with Some r => r | None =>
-  match dispatch_batch name a with Some r => r | None => dispatch name a end end end end end end.
+  match dispatch_batch name a with Some r => r | None =>
+  match dispatch_mem name a with Some r => r | None => dispatch name a end end end end end end end.
